@@ -36,6 +36,7 @@ import (
 	sqlite3 "github.com/mattn/go-sqlite3"
 	"github.com/pegnet/pegnetd/config"
 	"github.com/pegnet/pegnetd/fat/fat2"
+	"github.com/pegnet/pegnetd/node"
 	"github.com/pegnet/pegnetd/node/conversions"
 	"github.com/pegnet/pegnetd/node/pegnet"
 )
@@ -138,6 +139,17 @@ func (s *APIServer) getMiningDominance(ctx context.Context, data json.RawMessage
 	return result
 }
 
+// rateAverages computes the rate averages on a cache that is private to the
+// API server, reading only committed rates.
+func (s *APIServer) rateAverages(ctx context.Context, height uint32) map[fat2.PTicker]uint64 {
+	s.avgMu.Lock()
+	defer s.avgMu.Unlock()
+	if s.avgNode == nil {
+		s.avgNode = &node.Pegnetd{Pegnet: s.Node.Pegnet}
+	}
+	return s.avgNode.GetPegNetRateAverages(ctx, height).(map[fat2.PTicker]uint64)
+}
+
 type ResultGlobalRichList struct {
 	Address string `json:"address"`
 	Equiv   uint64 `json:"pusd"`
@@ -156,7 +168,7 @@ func (s *APIServer) getGlobalRichList(ctx context.Context, data json.RawMessage)
 
 	height := s.Node.GetCurrentSync()
 	rates, realHeight, err := s.Node.Pegnet.SelectMostRecentRatesBeforeHeight(nil, s.Node.Pegnet.DB, height+1)
-	averages := s.Node.GetPegNetRateAverages(ctx, realHeight).(map[fat2.PTicker]uint64)
+	averages := s.rateAverages(ctx, realHeight)
 	if err != nil {
 		return err
 	}
@@ -233,7 +245,7 @@ func (s *APIServer) getRichList(ctx context.Context, data json.RawMessage) inter
 
 	height := s.Node.GetCurrentSync()
 	rates, rateHeight, err := s.Node.Pegnet.SelectMostRecentRatesBeforeHeight(nil, s.Node.Pegnet.DB, height+1)
-	averages := s.Node.GetPegNetRateAverages(ctx, rateHeight).(map[fat2.PTicker]uint64)
+	averages := s.rateAverages(ctx, rateHeight)
 	if err != nil {
 		return err
 	}
